@@ -107,6 +107,9 @@ class DecoratedFunction:
 
     @property
     def is_instance_method(self) -> bool:
+        if inspect.ismethod(self._func):
+            return False  # a bound method: the instance is not part of the arguments of a call
+
         return self._full_arg_spec.args != [] and self._full_arg_spec.args[0] == 'self'
 
     @property
